@@ -13,7 +13,7 @@ LEVEL_TEXT = ('Bounded-exhaustive runtime check: every Linen filter form up to n
               'Filters are finite/co-finite sets, so small scope is decisive for the algebra; exploration is the honest level.')
 LEVEL_NOTE = 'Trusts the 10-line reference evaluators in vf/props/c14.py and the JAX compat aliases (vf/compat.py).'
 TECHNIQUE = 'runtime monitoring: semantic membership oracle over bounded-exhaustive filter forms on the real filter functions'
-RULE = ('Linen: every filter form of nesting depth <= D (D=2 quick, 3 thorough) over names {a,b,c} '
+RULE = ('Linen: every filter form of nesting depth <= D (D=2 quick, 4 thorough) over names {a,b,c} '
         '(True, False, str, (), tuple/list/set/frozenset of <=2 names, DenyList(.)), all ordered pairs x '
         '{union,intersect,subtract} x 4 names (3 mentioned + 1 fresh), is_filter_empty of every form and every '
         'op result, all filter lists of length <=3 for group_collections. NNX: filter expressions of depth <= D '
@@ -29,7 +29,7 @@ ASSUMPTIONS = [
 PLAN = {'quick': dict(workers=2, timeout_s=900), 'thorough': dict(workers=12, timeout_s=3000)}
 MIN_EVENTS = {'quick': {'oracle:linen.op': 2000, 'oracle:linen.empty': 50, 'oracle:linen.group': 300,
                         'oracle:nnx.pred': 2000, 'oracle:nnx.partition': 500},
-              'thorough': {'oracle:linen.op': 20000, 'oracle:nnx.partition': 2000}}
+              'thorough': {'oracle:linen.op': 15000, 'oracle:nnx.partition': 2000}}
 
 NAMES = ['a', 'b', 'c', 'zz_fresh']
 
@@ -38,10 +38,12 @@ NAMES = ['a', 'b', 'c', 'zz_fresh']
 # Linen filters: syntax trees -> (real filter object, reference membership)
 
 
-def linen_forms(depth):
+def linen_forms(depth, wide=False):
   """Yields descriptor tuples; descriptors are turned into real objects by build()."""
   base = [('bool', True), ('bool', False), ('str', 'a'), ('str', 'b'), ('tuple', ()), ('tuple', ('a',)),
           ('tuple', ('a', 'b')), ('list', ('b', 'c')), ('set', ('a',)), ('frozenset', ('a', 'c')), ('list', ())]
+  if wide:
+    base += [('tuple', ('b', 'c')), ('list', ('a', 'b', 'c')), ('frozenset', ()), ('set', ('b', 'c')), ('str', 'c')]
   forms = list(base)
   prev = list(base)
   for _ in range(depth):
@@ -90,7 +92,7 @@ def real_members(scope, f):
 
 def run_linen(ctx, depth):
   from flax.core import scope
-  forms = linen_forms(depth)
+  forms = linen_forms(depth, wide=ctx.tier == 'thorough')
   ops = [('union', scope.union_filters, lambda x, y: x or y),
          ('intersect', scope.intersect_filters, lambda x, y: x and y),
          ('subtract', scope.subtract_filters, lambda x, y: x and not y)]
@@ -428,6 +430,5 @@ def _same_leaf(a, b):
 
 
 def run(ctx):
-  depth = 2 if ctx.tier == 'quick' else 3
-  run_linen(ctx, depth)
-  run_nnx(ctx, depth)
+  run_linen(ctx, 2 if ctx.tier == 'quick' else 4)
+  run_nnx(ctx, 2 if ctx.tier == 'quick' else 3)
